@@ -67,28 +67,40 @@ structure Usage where
   isStatic : Bool := false
   deriving DecidableEq, Repr, Inhabited
 
-/-- `mFunctions` as an association list (first occurrence of a key is the entry) -/
+/-! association lists (std::unordered_map / std::map with string keys; iteration order is not used by the theorems) -/
+
+def amKeys {β : Type} (m : List (Str × β)) : List Str := m.map (·.1)
+
+def amGet? {β : Type} (m : List (Str × β)) (k : Str) : Option β := (m.find? fun e => e.1 == k).map (·.2)
+
+/-- `m[k] = v` -/
+def amSet {β : Type} (m : List (Str × β)) (k : Str) (v : β) : List (Str × β) :=
+  if m.any (fun e => e.1 == k) then m.map (fun e => if e.1 == k then (k, v) else e) else m ++ [(k, v)]
+
+/-- `mFunctions` -/
 abbrev FMap := List (Str × Usage)
 
-def lookup (m : FMap) (k : Str) : Usage :=
-  match m.find? (fun e => e.1 == k) with
-  | some e => e.2
-  | none => {}
+/-- `mFunctions[k]` (default-constructed when absent) -/
+def lookup (m : FMap) (k : Str) : Usage := (amGet? m k).getD {}
 
-def update (m : FMap) (k : Str) (u : Usage) : FMap :=
-  if m.any (fun e => e.1 == k) then m.map (fun e => if e.1 == k then (k, u) else e) else m ++ [(k, u)]
+def update (m : FMap) (k : Str) (u : Usage) : FMap := amSet m k u
 
+/-- the declaration loop of `parseTokens` for one function, written field by field:
+    `usedOtherFile` is set by the attribute on the return type and, when the name was already seen in another file,
+    absorbs `usedSameFile`; line/column are taken only while `lineNumber` is still 0; the file name only while empty;
+    `isC` / `isStatic` are overwritten -/
 def applyDecl (m : FMap) (d : Decl) : FMap :=
   let k := strip d.name
   let u := lookup m k
-  let u := if d.retUnused then { u with usedOtherFile := true } else u
-  let u := if u.line = 0 then { u with line := d.line, col := d.col } else u
-  let u := { u with isC := d.isC, isStatic := d.isStatic }
-  let u :=
-    if u.filename = [] then { u with filename := d.file }
-    else if u.filename ≠ d.file then { u with usedOtherFile := u.usedOtherFile || u.usedSameFile }
-    else u
-  update m k u
+  let other0 := u.usedOtherFile || d.retUnused
+  update m k
+    { filename := if u.filename = [] then d.file else u.filename,
+      line := if u.line = 0 then d.line else u.line,
+      col := if u.line = 0 then d.col else u.col,
+      usedSameFile := u.usedSameFile,
+      usedOtherFile := if u.filename ≠ [] ∧ u.filename ≠ d.file then other0 || u.usedSameFile else other0,
+      isC := d.isC,
+      isStatic := d.isStatic }
 
 def applyCall (m : FMap) (c : CallEv) : FMap :=
   let u := lookup m c.name
@@ -162,7 +174,7 @@ structure Collected where
   deriving DecidableEq, Repr, Inhabited
 
 def declInsert (m : List (Str × (Str × Int × Int))) (k : Str) (v : Str × Int × Int) : List (Str × (Str × Int × Int)) :=
-  if m.any (fun e => e.1 == k) then m.map (fun e => if e.1 == k then (k, v) else e) else m ++ [(k, v)]
+  amSet m k v
 
 inductive Coll
   | ok (c : Collected)
@@ -208,6 +220,9 @@ def collectTU (c : Collected) (t : TU) : Collected :=
 def unusedBuildDir (entry : Str → Bool) (tus : List TU) : List Finding :=
   checkCollected entry (tus.foldl collectTU ⟨[], []⟩)
 
+/-- `std::strcmp(checkattr, "CheckUnusedFunctions") == 0` -/
+def isUnusedCheck (c : Str) : Bool := c = "CheckUnusedFunctions".toList
+
 /-- the same through the text: write `analyzerInfo`, wrap it like the cache file does, parse, run the handler -/
 def collectText (sourceFile : Str) (c : Collected) (text : Str) : Coll :=
   match loadFile (storeFile 1 [("CheckUnusedFunctions".toList, text)]) with
@@ -215,7 +230,7 @@ def collectText (sourceFile : Str) (c : Collected) (text : Str) : Coll :=
     l.foldl (fun acc ce =>
       match acc with
       | .threw => .threw
-      | .ok c => if ce.1 = "CheckUnusedFunctions".toList then loadUnusedKids sourceFile ce.2.kids c else .ok c) (.ok c)
+      | .ok c => if isUnusedCheck ce.1 then loadUnusedKids sourceFile ce.2.kids c else .ok c) (.ok c)
   | _ => .threw
 
 /-! ## driver glue (wire format: see harness/c22.cpp, op `unused`) -/
